@@ -10,7 +10,7 @@ RULE = (
     'scope trees (depth <= 3, 0-6 children per block, volatile and non-volatile) in which the '
     'body and every child get a fate from {succeed at t, fail at t with one of 7 exception '
     'types incl. SystemExit/KeyboardInterrupt/AssertionError subclasses, fail with a nested '
-    'Concurrent, block forever}; failure times from a colliding grid (simultaneous failures, '
+    'Concurrent, block forever, fail in the clean-up when being closed}; failure times from a colliding grid (simultaneous failures, '
     'failure at spawn time, failure during graceful shutdown, at the time the body raises). '
     'The thorough tier first enumerates ALL assignments for one block with <= 3 children over '
     '3 times x 4 types (65 536 cases), then samples deeper trees; cancellations are injected at '
@@ -107,6 +107,10 @@ def random_fate(rng, ids, depth, siblings=()):
             steps.append({'op': 'raise', 'kind': rng.choice(ALL_KINDS), 'tag': ids('e'),
                           'id': ids('s')})
         return steps
+    if roll < 0.32:
+        # runs long and fails in its clean-up when the block closes it
+        return [{'op': 'fragile', 'kind': rng.choice(ALL_KINDS), 'tag': ids('e'), 'id': ids('s'),
+                 'body': fate_steps(rng.choice([('forever',), ('ok', 2), ('ok', 1.5)]), ids)}]
     if roll < 0.5:
         return fate_steps(('ok', rng.choice(TIMES + [1.5, 2])), ids)
     if roll < 0.9:
